@@ -60,15 +60,18 @@ func setPlaceholderNames(n *ast.MsgNode) {
 			continue
 		}
 
+		// a suffixed name must not collide with any base name (as in official Soy); testing the
+		// base names, not the names assigned so far, keeps the result independent of the
+		// order in which Go iterates the map.
 		var nextSuffix = 1
 		for _, node := range nodes {
 			for {
 				var newName = baseName + "_" + strconv.Itoa(nextSuffix)
-				if _, ok := nameToRepNodes[newName]; !ok {
+				nextSuffix++
+				if _, ok := baseNameToRepNodes[newName]; !ok {
 					nameToRepNodes[newName] = node
 					break
 				}
-				nextSuffix++
 			}
 		}
 	}
